@@ -90,6 +90,63 @@ func c17R1(c *Check, validate, merge, urls *ssa.Function) {
 			"ValidateAll() is reached only under "+n.name+" err == nil", "ValidateAll() can be reached without "+n.name+" having succeeded (pipeline order broken)")
 		order = append(order, found)
 	}
+	// the merge reports every refusal it collected: what it returns is an immediate error or errors.Join over the
+	// collected list evaluated after the loops — not a value carried around the chain loop (a later chain without
+	// errors would overwrite the refusals of an earlier one)
+	for i, r := range returnsOf(merge) {
+		if len(r.Results) != 1 {
+			continue
+		}
+		okRet, why := true, ""
+		for _, l := range Leaves(r.Results[0], leafOpts{noConcat: true}) {
+			l = resolveCell(stripConv(l))
+			switch {
+			case isNilConst(l):
+				okRet, why = false, "a constant nil can be returned (initial value of a variable that the loop overwrites)"
+			default:
+				if jc, _, isC := asCall(l); isC && isCallTo(jc, "errors.Join") {
+					if inLoop(jc.Block()) {
+						okRet, why = false, "the returned errors.Join is evaluated inside the chain/filter loop: the result of a later iteration replaces the refusals of an earlier one"
+					}
+					// the joined list is not re-initialised inside a loop: walking the list back through appends and
+					// phis, every edge that brings in a fresh (nil / newly made) list comes from a block outside loops
+					seenV := map[ssa.Value]bool{}
+					var walk func(v ssa.Value)
+					walk = func(v ssa.Value) {
+						v = stripConv(v)
+						if seenV[v] {
+							return
+						}
+						seenV[v] = true
+						switch x := v.(type) {
+						case *ssa.Phi:
+							for k, e := range x.Edges {
+								es := stripConv(e)
+								_, isMS := es.(*ssa.MakeSlice)
+								if isNilConst(es) || isMS {
+									if inLoop(x.Block().Preds[k]) {
+										okRet, why = false, "the list of collected errors is re-created in every iteration"
+									}
+									continue
+								}
+								walk(e)
+							}
+						case *ssa.Call:
+							if bi, isB := x.Call.Value.(*ssa.Builtin); isB && bi.Name() == "append" && len(x.Call.Args) > 0 {
+								walk(x.Call.Args[0])
+							}
+						case *ssa.Slice:
+							walk(x.X)
+						case *ssa.UnOp:
+							walk(resolveCell(x))
+						}
+					}
+					walk(jc.Common().Args[0])
+				}
+			}
+		}
+		c.Obl(okRet, "C17.R1", fmt.Sprintf("merge-reports-all-refusals/return#%d", i+1), P.Pos(instrPos(r)), "the merge returns an immediate error or the join of everything it collected, evaluated after the loops", "the merge can lose refusals: "+why)
+	}
 	// merge after URL validation, URL validation after decoding
 	if order[1] != nil && order[0] != nil {
 		c.Obl(ff.At(order[1]).CallErrNil(order[0], -1), "C17.R1", "order/decode-before-urls", P.Pos(order[1].Pos()), "URLs validated after successful decoding", "URL validation is not dominated by successful decoding")
@@ -423,6 +480,30 @@ func c17R2(c *Check, validate, merge, defaults, oidcURLs *ssa.Function) {
 			})
 			if bad == nil {
 				found = true
+			}
+			// in the per-fragment URL validator the test is unconditional: no return that can report success lies
+			// on a path that has not evaluated it (an early `return otherCheck(…)` would skip it)
+			if fn == oidcURLs {
+				for i, r := range returnsOf(fn) {
+					if len(r.Results) == 0 {
+						continue
+					}
+					mayNil := false
+					for _, l := range Leaves(r.Results[len(r.Results)-1], leafOpts{noConcat: true}) {
+						if isNilConst(l) {
+							mayNil = true
+						}
+						if lc, _, isC := asCall(l); isC && !FactsOf(fn).At(r).NonNil(l) && !isCallToAny(lc, "fmt.Errorf", "errors.New") {
+							mayNil = true
+						}
+					}
+					if !mayNil {
+						continue
+					}
+					passes := mustPassBefore(fn, r, func(x ssa.Instruction) bool { return x == ssa.Instruction(cc) })
+					c.Obl(passes, "C17.R2", fmt.Sprintf("%s/not-bypassed/return#%d", key, i+1), P.Pos(instrPos(r)), want+": every successful return has evaluated the test",
+						want+": a return that can report success is reachable without the test having been evaluated (an earlier `return f(…)` ends the validation)")
+				}
 			}
 		}
 		c.Obl(found, "C17.R2", key, P.Pos(fn.Pos()), want+": enforced and guards an error", want+": the enforcing test is missing or no longer guards an error")
